@@ -102,7 +102,7 @@ def judge(src, vb, seed, tier, via="lib"):
         return "returned", f"clipped document cannot be rendered: {e}", out, {}
     if not r["ok"]:
         return "returned", r["why"], out, r["stats"]
-    bad = R4.validate(out)
+    bad = R4.validate(out, ndigits=None)  # clip_to_viewbox has no ndigits contract: rounding is not judged here
     if bad:
         return "returned", "clipped document violates the picosvg grammar: " + "; ".join(bad)[:300], out, r["stats"]
     return "returned", None, out, r["stats"]
